@@ -283,6 +283,7 @@ func runC09(ctx *core.Ctx, idx int) *core.Result {
 	r := ctx.Rand("c09", idx)
 	g := gen.NewG(r)
 	g.NoParen = true
+	g.Comment = r.Intn(2) == 0 // comments do not take part in the tree comparison, but the library and the CLI must agree on them byte for byte
 	seq := genC09Seq(g)
 	switch idx % 12 {
 	case 5:
